@@ -218,7 +218,7 @@ pub fn run(ctx: &mut Ctx) {
         "hmac + sha2::Sha512 are correct".into(),
     ];
     ctx.replay_known_and_regressions(&replay);
-    let n = ctx.tier.pick(3000, 100_000);
+    let n = ctx.tier.pick(8000, 150_000);
     ctx.run_prop("seed", n, || crate::gen::tape(200).prop_map(gen_case), judge);
 
     // pair table on several mnemonics
